@@ -22,11 +22,19 @@ import (
 )
 
 // ConfModel is the part of krb5.conf that the engines vary.
+func (m ConfModel) etypeSep() string {
+	if m.EtypeSep == "" {
+		return " "
+	}
+	return m.EtypeSep
+}
+
 type ConfModel struct {
 	DefaultRealm   string              `json:"default_realm"`
 	TktEtypes      []string            `json:"tkt_etypes,omitempty"` // names as in krb5.conf
 	TGSEtypes      []string            `json:"tgs_etypes,omitempty"`
 	PreauthTypes   []int               `json:"preauth_types,omitempty"`
+	EtypeSep       string              `json:"etype_sep,omitempty"` // separator of the etype lists: "" = one space; krb5.conf also allows commas
 	Forwardable    bool                `json:"forwardable,omitempty"`
 	Proxiable      bool                `json:"proxiable,omitempty"`
 	Canonicalize   bool                `json:"canonicalize,omitempty"`
@@ -49,10 +57,10 @@ func (m ConfModel) Render() string {
 	b.WriteString("[libdefaults]\n")
 	fmt.Fprintf(&b, "  default_realm = %s\n  dns_lookup_kdc = false\n  dns_lookup_realm = false\n", m.DefaultRealm)
 	if len(m.TktEtypes) > 0 {
-		fmt.Fprintf(&b, "  default_tkt_enctypes = %s\n", strings.Join(m.TktEtypes, " "))
+		fmt.Fprintf(&b, "  default_tkt_enctypes = %s\n", strings.Join(m.TktEtypes, m.etypeSep()))
 	}
 	if len(m.TGSEtypes) > 0 {
-		fmt.Fprintf(&b, "  default_tgs_enctypes = %s\n", strings.Join(m.TGSEtypes, " "))
+		fmt.Fprintf(&b, "  default_tgs_enctypes = %s\n", strings.Join(m.TGSEtypes, m.etypeSep()))
 	}
 	if len(m.PreauthTypes) > 0 {
 		var s []string
